@@ -85,9 +85,9 @@ def handle (ts : Toks) : String :=
             (r.1, acc.2 ++ [match r.2 with | .stream l => "s:" ++ toString l | .noStream => "none" | .error e => "err:" ++ showErr e])
           else match o.splitOn ":" with
             | ["X", l] => if have_ acc.2 l then (closeStream c (l.toNat?.getD 0), acc.2 ++ ["ok"]) else (c, acc.2 ++ ["ok"])
-            | ["R", l] =>
+            | ["R", l, n] =>
               if have_ acc.2 l then
-                let r := readStream (l.toNat?.getD 0) (c.dev.length + 2) c
+                let r := readStream (l.toNat?.getD 0) (n.toNat?.getD 0) (c.dev.length + 24) c
                 (r.1, acc.2 ++ [match r.2 with | .ok d => "d:" ++ ".".intercalate (d.map toString) | .error e => "err:" ++ showErr e])
               else (c, acc.2 ++ ["err:closed"])
             | _ => (c, acc.2 ++ ["?"])
